@@ -33,6 +33,7 @@ func payProbe() *Compiled {
 
 type gasModel struct {
 	gasU, gasC, gasP, gasX int64
+	gasW                   int64 // a user who holds one unit less than the withdrawal fees at the initial setting
 	gasIR                  []int64
 	fee                    int64
 	cand                   bool
@@ -62,6 +63,7 @@ type GasDriver struct {
 	N       int
 	ops     []gasOp
 	u, s, x *Account
+	wp      *Account
 	ir      []*Account
 }
 
@@ -84,6 +86,7 @@ func NewGasDriver(notary bool, n int) *GasDriver {
 	for _, a := range []int64{-1, 0, 1, 9000, 9001} {
 		add(gasOp{kind: "withdraw", amt: a, signer: "U"})
 	}
+	add(gasOp{kind: "withdraw", amt: 1, signer: "W"})
 	add(gasOp{kind: "withdraw", amt: 1, signer: "S"},
 		gasOp{kind: "candAdd", signer: "X"}, gasOp{kind: "candAdd", signer: "S"}, gasOp{kind: "candRm", signer: "X"}, gasOp{kind: "candRm", signer: "S"})
 	if notary || n == 1 {
@@ -115,6 +118,14 @@ func (d *GasDriver) Build() *World {
 	d.u, d.s, d.x = w.Acct("U"), w.Acct("S"), w.Acct("X")
 	w.FundGAS(d.u.Hash, 40000*gasUnit)
 	w.FundGAS(d.x.Hash, 10*gasUnit)
+	// W can pay all withdrawal fees but the last unit (7 per payee: Processing with Notary, every stored key without)
+	d.wp = w.Acct("W")
+	payees := int64(1)
+	if !d.Notary {
+		payees = int64(d.N)
+	}
+	w.FundGAS(d.wp.Hash, 7*payees-1)
+	w.Track("W", d.wp.Hash, false)
 	var ks []any
 	d.ir = nil
 	if d.Notary {
@@ -146,6 +157,7 @@ func (d *GasDriver) Build() *World {
 func (d *GasDriver) Init(w *World) Model {
 	m := &gasModel{fee: 7, votes: map[string]uint8{}}
 	m.gasU, m.gasX = gasOf(w, w.Root, d.u.Hash), gasOf(w, w.Root, d.x.Hash)
+	m.gasW = gasOf(w, w.Root, d.wp.Hash)
 	for _, a := range d.ir {
 		m.gasIR = append(m.gasIR, gasOf(w, w.Root, a.Hash))
 	}
@@ -200,6 +212,8 @@ func (d *GasDriver) Step(x *Exec, n *Node, i int) StepResult {
 		} else {
 			signer = d.ir[0].Hash
 		}
+	case "W":
+		signer = d.wp.Hash
 	case "CM":
 		signer = w.Comm
 	case "M0":
@@ -276,7 +290,11 @@ func (d *GasDriver) Step(x *Exec, n *Node, i int) StepResult {
 		scr = Script(w.Contracts["payprobe"].Hash, "pay", h, d.u.Hash, o.amt, data)
 		expHalt = false
 	case "withdraw":
-		scr = Script(h, "withdraw", d.u.Hash, o.amt)
+		user, have := d.u.Hash, m.gasU
+		if o.signer == "W" {
+			user, have = d.wp.Hash, m.gasW // withdraws for itself
+		}
+		scr = Script(h, "withdraw", user, o.amt)
 		payees := []util.Uint160{proc}
 		if !d.Notary {
 			payees = nil
@@ -285,22 +303,27 @@ func (d *GasDriver) Step(x *Exec, n *Node, i int) StepResult {
 			}
 		}
 		total := m.fee * int64(len(payees))
+		own := o.signer == "U" || o.signer == "W"
 		// the statement bounds deposits (0 < amount <= 9000 GAS), not withdrawal requests: whether a request for
 		// 0 or for more than 9000 GAS is refused is free, what an accepted one charges is not
-		freeOutcome = o.signer == "U" && (o.amt == 0 || o.amt > 9000) && total <= m.gasU
-		if o.signer != "U" || o.amt < 0 || total > m.gasU {
-			expHalt = false
+		freeOutcome = own && (o.amt == 0 || o.amt > 9000) && total <= have
+		if !own || o.amt < 0 || total > have {
+			expHalt = false // also when only the last of several payees cannot be paid: nothing of the request stays
 		} else {
-			nm.gasU -= total
+			if o.signer == "W" {
+				nm.gasW -= total
+			} else {
+				nm.gasU -= total
+			}
 			for k, p := range payees {
 				if d.Notary {
 					nm.gasP += m.fee
 				} else {
 					nm.gasIR[k] += m.fee
 				}
-				expN = append(expN, Notif{"GAS", "Transfer", []any{gx(d.u.Hash.BytesBE()), gx(p.BytesBE()), NI(m.fee)}})
+				expN = append(expN, Notif{"GAS", "Transfer", []any{gx(user.BytesBE()), gx(p.BytesBE()), NI(m.fee)}})
 			}
-			expN = append(expN, Notif{"neofs", "Withdraw", []any{gx(d.u.Hash.BytesBE()), NI(o.amt * gasUnit), "xTXHASH"}})
+			expN = append(expN, Notif{"neofs", "Withdraw", []any{gx(user.BytesBE()), NI(o.amt * gasUnit), "xTXHASH"}})
 		}
 	case "cheque":
 		scr = Script(h, "cheque", []byte(fmt.Sprintf("cheque-%d", o.amt)), d.u.Hash, o.amt, []byte("lock"))
@@ -394,7 +417,7 @@ func (d *GasDriver) Step(x *Exec, n *Node, i int) StepResult {
 		n string
 		h util.Uint160
 		v int64
-	}{{"U", d.u.Hash, nm.gasU}, {"neofs", h, base + nm.gasC}, {"processing", proc, nm.gasP}, {"X", d.x.Hash, nm.gasX}} {
+	}{{"U", d.u.Hash, nm.gasU}, {"neofs", h, base + nm.gasC}, {"processing", proc, nm.gasP}, {"X", d.x.Hash, nm.gasX}, {"W", d.wp.Hash, nm.gasW}} {
 		if r := check(c.n, c.h, c.v); r != nil {
 			return *r
 		}
